@@ -216,3 +216,27 @@ def stmt_mutation_text(rng):
     if rng.random() < 0.15:
         text = st + "\n"  # the statement alone, outside any scope
     return f"{slot}{k}:{tag.split(':')[0]}", text, (".F90" if slot == "PP" else rng.choice([".f90", ".f90", ".F90"]))
+
+
+_ALL_MUT = []
+
+
+def all_stmt_mutations():
+    """the complete list of (slot, template index, tag, statement) in a fixed order"""
+    if not _ALL_MUT:
+        for slot in sorted(TEMPLATES):
+            for k in range(len(TEMPLATES[slot])):
+                for tag, st in stmt_mutations(slot, k):
+                    _ALL_MUT.append((slot, k, tag, st))
+    return _ALL_MUT
+
+
+def wrap_stmt(slot, st, alone=False):
+    if alone:
+        return st + "\n"
+    fill = {"MS": "", "SP": "", "EX": "", "TOP": ""}
+    fill["EX" if slot == "PP" else slot] = st
+    text = WRAP
+    for s_, v in fill.items():
+        text = text.replace(f"@{s_}@", v)
+    return text
